@@ -303,7 +303,7 @@ class C13(Prop):
     exhaustive_note = ("every one of the 2^(n-1) cut sets of streams of up to 16 octets (two packets, with and without junk and an "
                        "incomplete tail; parser call after every chunk) and, for streams of up to 9 octets, every cut set combined "
                        "with every subset of parser-call points; all 65 536 values of the first header word against the registered "
-                       "IDs (mask 0x1FFF); thorough tier: all cut sets up to 18 octets (three packets), all cut sets x call points up to 11 octets")
+                       "IDs (mask 0x1FFF); every set of at most 3 (thorough: 5) cuts of two three-packet streams; thorough tier: all cut sets up to 18 octets (three packets), all cut sets x call points up to 11 octets")
     trusted_base = [
         "collections.deque (append/popleft/clear/truthiness) and bytearray.extend/slicing of CPython: modelled as a list of octet strings, not verified",
         "arithmetic normal form of the model (word % 8192, length field + 7) vs mask/struct.unpack of the code: tied by the exhaustive first-word sweep and the length-field boundary pool",
@@ -424,6 +424,17 @@ class C13(Prop):
                 yield s.case_cuts(cuts, (1 << 20) - 1, "all-cuts")
             for cuts in range(0, 1 << (n - 1), 7):
                 yield s.case_cuts(cuts, rng.getrandbits(16), "all-cuts-random-calls")
+
+        # --- three packets (21 octets and more): every cut set with at most 3 (thorough: 5) cuts -------------------
+        import itertools
+        three = [mk_stream(rng, ids0, [0, 0, 0], [0, 0, 0], 0, None),
+                 mk_stream(rng, rng.choice(ID_SETS), [0, 1, 0], [0, 1, 0], 0, 2)]
+        for s in three:
+            n = len(s.data)
+            for k in range(0, (5 if thorough else 3) + 1):
+                for pos in itertools.combinations(range(n - 1), k):
+                    cuts = sum(1 << q for q in pos)
+                    yield s.case_cuts(cuts, (1 << 8) - 1, "three-packets-few-cuts")
 
         # --- first header word: all 65 536 values against three registered IDs ----------------------------------
         ids3 = ID_SETS[3]
